@@ -553,6 +553,45 @@ Definition fwd_failures (f : efn) : list (string * string) :=
 
 Definition fwd_ok (f : efn) : bool := match fwd_failures f with [] => true | _ => false end.
 
+(* --- Z callback registration (USINGZ configuration) ---------------------------------------------- *)
+(* The registered callbacks are two header-level globals, one per coordinate type, written only by the exported
+   SetZCallback64 / SetZCallbackD; an export that executes a Clipper64 (ClipperD) must hand exactly the global of
+   its family to SetZCallback of that clipper class, once, in front of Execute.  No other export, and no export of
+   the plain configuration, registers anything.  (The table is flat: the `if (global)` guard around the call is
+   not visible here; what a null registration does is judged on the running code by the ZH histories.) *)
+Definition zcb_family (name : string) : option (string * string) :=   (* clipper class, global *)
+  let pc := principal_callee name in
+  if String.eqb pc "Clipper64::Execute" then Some ("Clipper64", "dllCallback64")
+  else if String.eqb pc "ClipperD::Execute" then Some ("ClipperD", "dllCallbackD")
+  else None.
+
+Definition is_setz (c : ccall) : bool := ends_with "::SetZCallback" (c_callee c).
+
+Fixpoint calls_before (pc : string) (cs : list ccall) : list ccall :=
+  match cs with
+  | [] => []
+  | c :: t => if ends_with pc (c_callee c) then [] else c :: calls_before pc t
+  end.
+
+Definition zcb_failures (usingz : bool) (f : efn) : list (string * string) :=
+  let all := filter is_setz (f_calls f) in
+  match (if usingz then zcb_family (f_name f) else None) with
+  | Some (cls, g) =>
+      match all, filter is_setz (calls_before (principal_callee (f_name f)) (f_calls f)) with
+      | [_], [c] =>
+          if ends_with (cls ++ "::SetZCallback") (c_callee c) then
+            match c_args c with
+            | [a] => if ex_eqb (strip_casts (a_actual a)) (ELocal g) then [] else [("z_callback", c_callee c)]
+            | _ => [("z_callback", c_callee c)]
+            end
+          else [("z_callback", c_callee c)]
+      | _, _ => [("z_callback", "not-forwarded")]
+      end
+  | None => match all with [] => [] | c :: _ => [("z_callback", c_callee c)] end
+  end.
+
+Definition zcb_ok (usingz : bool) (f : efn) : bool := match zcb_failures usingz f with [] => true | _ => false end.
+
 (* --- validation prologue ------------------------------------------------------------------------ *)
 Record penv := mk_penv { pe_int : string -> Z;          (* integer parameters *)
                          pe_null : string -> bool;      (* pointer parameter is null *)
